@@ -109,8 +109,9 @@ def gen_dir():
     if not os.path.exists(os.path.join(d, ".done")):
         os.makedirs(d, exist_ok=True)
         sys.path.insert(0, VERIF)
-        from gen import lists
+        from gen import lists, relations
         lists.generate(INCLUDE, d)
+        relations.write_header(INCLUDE, os.path.join(d, "relations.hpp"))
         open(os.path.join(d, ".done"), "w").write("ok")
     return d
 
